@@ -374,15 +374,36 @@ def op_place(o):
     return o.get("p") if isinstance(o, dict) else None
 
 
-def backward(body, op, proj=(), stop=None, through_calls=True, max_nodes=20000):
+def _reach_cache(body):
+    c = getattr(body, "_reach", None)
+    if c is None:
+        c = {}
+        body._reach = c
+    return c
+
+
+def can_reach(body, d, u):
+    """can control flow from block d to block u (d == u counts)?"""
+    if d == u:
+        return True
+    c = _reach_cache(body)
+    r = c.get(d)
+    if r is None:
+        r = reach(body, [d])
+        c[d] = r
+    return u in r
+
+
+def backward(body, op, proj=(), stop=None, through_calls=True, max_nodes=20000, at=None):
     """SLICE⁻ of operand `op` (a MIR operand dict, or {'p': place}).  `stop(term)` -> True makes a call a leaf
-    (it is recorded, its arguments are not followed).  through_calls=False makes every non-transparent call a leaf."""
+    (it is recorded, its arguments are not followed).  through_calls=False makes every non-transparent call a leaf.
+    A definition is followed only if its block can reach the block of the use (`at` = block of the initial use, optional)."""
     defs = body.defs()
     res = Slice()
     seen = set()
     work = []
 
-    def push_op(o, rest):
+    def push_op(o, rest, ub):
         if not isinstance(o, dict):
             return
         if "c" in o:
@@ -391,12 +412,15 @@ def backward(body, op, proj=(), stop=None, through_calls=True, max_nodes=20000):
         p = o.get("p")
         if p is None:
             return
-        work.append((p["l"], norm_proj(p["proj"]) + tuple(rest)))
+        work.append((p["l"], norm_proj(p["proj"]) + tuple(rest), ub))
+        for e in p["proj"]:
+            if isinstance(e, dict) and "idx" in e:
+                work.append((e["idx"], (), ub))
 
-    push_op(op, proj)
+    push_op(op, proj, at)
     n = 0
     while work:
-        l, pr = work.pop()
+        l, pr, ub = work.pop()
         key = (l, fields_only(pr)[:2])
         if key in seen:
             continue
@@ -411,6 +435,9 @@ def backward(body, op, proj=(), stop=None, through_calls=True, max_nodes=20000):
         if 1 <= l <= body.argc:
             res.params.append((l, pr))
         for df in ds:
+            if ub is not None and not can_reach(body, df["bi"], ub):
+                continue
+            dbi = df["bi"]
             dproj = fields_only(norm_proj(df.get("proj", [])))
             fp = fields_only(pr)
             rest = pr
@@ -430,7 +457,7 @@ def backward(body, op, proj=(), stop=None, through_calls=True, max_nodes=20000):
                 rv = df["rv"]
                 k = rv["k"]
                 if k in ("use", "ref", "cast", "rawptr"):
-                    push_op(rv["ops"][0], rest)
+                    push_op(rv["ops"][0], rest, dbi)
                 elif k == "agg":
                     res.aggs.append((df["bi"], rv))
                     r = list(rest)
@@ -441,16 +468,16 @@ def backward(body, op, proj=(), stop=None, through_calls=True, max_nodes=20000):
                                 continue
                             r = r[1:]
                         if r and r[0][0] == "f" and r[0][1] < len(rv["ops"]):
-                            push_op(rv["ops"][r[0][1]], r[1:])
+                            push_op(rv["ops"][r[0][1]], r[1:], dbi)
                         else:
                             for o in rv["ops"]:
-                                push_op(o, ())
+                                push_op(o, (), dbi)
                     else:
                         for o in rv["ops"]:
-                            push_op(o, ())
+                            push_op(o, (), dbi)
                 else:
                     for o in rv["ops"]:
-                        push_op(o, ())
+                        push_op(o, (), dbi)
             elif df["kind"] == "call":
                 t = df["term"]
                 if is_transparent(t):
@@ -461,10 +488,10 @@ def backward(body, op, proj=(), stop=None, through_calls=True, max_nodes=20000):
                     d = callee_def(t)
                     if d.endswith("Future::poll") or d.endswith("Try::branch") or d.endswith("into_future") or d.endswith("new_unchecked"):
                         if t["args"]:
-                            push_op(t["args"][0], r)
+                            push_op(t["args"][0], r, dbi)
                     else:
                         for a in t["args"]:
-                            push_op(a, ())
+                            push_op(a, (), dbi)
                 else:
                     res.calls.append((df["bi"], t, rest))
                     if stop and stop(t):
@@ -472,7 +499,7 @@ def backward(body, op, proj=(), stop=None, through_calls=True, max_nodes=20000):
                     if not through_calls:
                         continue
                     for a in t["args"]:
-                        push_op(a, ())
+                        push_op(a, (), dbi)
             elif df["kind"] == "mutarg":
                 t = df["term"]
                 if is_transparent(t):
@@ -486,7 +513,7 @@ def backward(body, op, proj=(), stop=None, through_calls=True, max_nodes=20000):
                     p = op_place(a)
                     if p is not None and p["l"] == l:
                         continue
-                    push_op(a, ())
+                    push_op(a, (), dbi)
     return res
 
 
@@ -607,7 +634,7 @@ def forward(body, start_locals, declassify=None, max_iter=100):
 # return-value writes
 # ------------------------------------------------------------------------------------------------
 
-def return_writes(body):
+def return_writes(body, _depth=0):
     """every write to the return place on the normal path: list of dicts
     {'bi','kind': 'Ok'|'Err'|'Some'|'None'|'call'|'use'|'other', 'rv'|'term', 'via_residual': bool}"""
     out = []
@@ -619,7 +646,27 @@ def return_writes(body):
                 if rv["k"] == "agg" and rv.get("agg") == "adt" and rv.get("adt") in ("core::result::Result", "core::option::Option"):
                     out.append({"bi": bi, "kind": rv["variant"], "rv": rv})
                 elif rv["k"] == "use":
-                    out.append({"bi": bi, "kind": "use", "rv": rv})
+                    # `_0 = move _x` where _x is only ever assigned Ok/Err/Some/None literals or call results: those assignments are the writes
+                    p = op_place(rv["ops"][0])
+                    expanded = None
+                    if p is not None and not p["proj"] and _depth < 3:
+                        ds = [d for d in body.defs().get(p["l"], []) if d["kind"] != "mutarg"]
+                        if ds and all(not d.get("proj") for d in ds):
+                            tmp = []
+                            for d in ds:
+                                if d["kind"] == "assign" and d["rv"]["k"] == "agg" and d["rv"].get("adt") in ("core::result::Result", "core::option::Option"):
+                                    tmp.append({"bi": d["bi"], "kind": d["rv"]["variant"], "rv": d["rv"], "via": bi})
+                                elif d["kind"] == "call":
+                                    dd = callee_def(d["term"])
+                                    tmp.append({"bi": d["bi"], "kind": "residual" if dd.endswith("FromResidual::from_residual") else "call", "term": d["term"], "via": bi})
+                                else:
+                                    tmp = None
+                                    break
+                            expanded = tmp
+                    if expanded and any("rv" in e for e in expanded):
+                        out += expanded
+                    else:
+                        out.append({"bi": bi, "kind": "use", "rv": rv})
                 else:
                     out.append({"bi": bi, "kind": "other", "rv": rv})
         t = b["term"]
